@@ -13,6 +13,9 @@ THEOREMS = [
     "Mtv.TL.decode_encode_value",
     "Mtv.TL.flagWord_bit_iff",
     "Mtv.TL.registry_wf",
+    "Mtv.TL.marshal_deterministic",
+    "Mtv.TL.encList_append",
+    "Mtv.TL.encList_twice",
 ]
 RULE = ("for every constructor registered in the working tree (enumerated by reflection): type-directed values "
         "(random depth-limited nesting through interfaces and vectors, boundary integers / doubles incl. NaN and -0.0, "
@@ -36,7 +39,19 @@ RULE = ("for every constructor registered in the working tree (enumerated by ref
         "the hints that describe them, 1 to 4 times with ONE hints slice object spread into every call (with and without spare "
         "capacity holding sentinels, with and without hints left over): every decoding returns the original vector, and the "
         "arguments - every slot of the hints slice up to its capacity, the input bytes, the marshalled value - are compared with "
-        "copies taken before the first call. distinct = distinct operation lines")
+        "copies taken before the first call. c01.dag (identity and aliasing of Go values; the text of an operation and the model's "
+        "values are trees): the value built with ONE Go object at every position of equal type and text (one pointer in two "
+        "fields, at two positions of a vector, at different depths, a constructor without fields, a 128/256-bit integer, a slice, a "
+        "byte string used twice), with every slice of a type cut from one backing array (capacities reaching over the neighbours and "
+        "over sentinels / limited), with typed nil pointers inside interfaces: tl.Marshal gives the bytes of the same tree built from "
+        "separate objects (both refused or both serialised, same bytes), twice the same, leaves its argument and the spare capacity "
+        "alone; both decoders return the tree; the decoded values do not change when the input bytes are overwritten, a second "
+        "decoding is equal and shares nothing with the first (everything reachable from the first result is overwritten in place), "
+        "and the bytes Marshal returned do not change when everything reachable from the argument is overwritten. c01.wrap: the "
+        "hand-written wrappers InitConnectionParams / InvokeWithLayerParams / InvokeWithTakeoutParams around registered method "
+        "parameters (Proxy / Params present and absent in every combination, wrappers inside wrappers): marshalled twice, compared "
+        "with the bytes their SCHEMA line defines, decoded by naming the wrapper type; the Lean model answers on the registry "
+        "extended by the wrappers' descriptors (reflection over the working tree, carried in the operation). distinct = distinct operation lines")
 
 
 def run(ctx):
@@ -47,6 +62,11 @@ def run(ctx):
         "the harness' reader of schemes/api_latest.tl and its writer of schema bytes (c01schema.go) are trusted; parameters of a "
         "schema line correspond in order to the struct fields the codec does not ignore (C13 proves that for the unchanged tree); "
         "c01.reg reads the registration sites with go/parser (calls tl.RegisterObjects / tl.RegisterEnums outside tests and testdata)",
+        "reading adopted for the hand-written wrappers (request-only types nobody registers): decoding by constructor id applies to "
+        "registered constructors - tl.DecodeUnknownObject on wrapper bytes and a wrapper inside a wrapper's query (decoded by id) are "
+        "refused by the unchanged code; c01.wrap reports both and judges neither (docs/C01.md, Session 9)",
+        "c01.dag: identity is not part of a value - a Go value with shared objects is judged against the tree it unfolds to; cyclic "
+        "values have no unfolding and are not generated",
     ]
     return vlib.generic_check(ctx, SUB, MODULES, THEOREMS, RULE, gen_hook=tlgen.regen_registry)
 
